@@ -135,7 +135,16 @@ func c04FTEnumerate(sh *evidence.Shard) {
 }
 
 func TestVerifC04FrameType(t *testing.T) {
-	evidence.Main(t, "C04", evidence.Seq{Run: c04FTEnumerate, Replay: func(part string, raw json.RawMessage) (bool, bool, string) {
+	// second part (hook_server_test.go): payload arriving with the request x a request hook; added
+	// after the independently seeded change C04-8 (request parsed through a bufio.Reader)
+	run := func(sh *evidence.Shard) {
+		c04FTEnumerate(sh)
+		c04HookEnumerate(sh)
+	}
+	evidence.Main(t, "C04", evidence.Seq{Run: run, Replay: func(part string, raw json.RawMessage) (bool, bool, string) {
+		if part == c04HookPart {
+			return c04HookReplay(raw)
+		}
 		if part != "frame-type-and-length-widths-at-the-server" {
 			return false, false, ""
 		}
